@@ -45,8 +45,8 @@ def rule_try_send(fm, rep, rid='R1'):
         rep.unknown(rid, 'try_send/shape', b.where(), 'try_send does not start with a match on the builder state')
         return
     dt, edges = T.switch_facts(0)
-    succ = [s for s, labs in edges.items() if ('variant', 'Success') in labs]
-    err = [s for s, labs in edges.items() if ('variant', 'Error') in labs]
+    succ = [s for s, labs in edges.items() if ('variant', names(cad).v_success) in labs]
+    err = [s for s, labs in edges.items() if ('variant', names(cad).v_error) in labs]
     if len(succ) != 1 or len(err) != 1:
         rep.unknown(rid, 'try_send/shape', b.where(), 'builder state match has edges %s' % edges)
         return
@@ -62,7 +62,7 @@ def rule_try_send(fm, rep, rid='R1'):
     ce = count_events(b, lambda x: x in fmts or x in sends, starts=err)
     rep.ob(rid, 'try_send/error-state-sends-nothing', ce == {0}, b.where(), 'rejected value: nothing formatted, nothing sent' if ce == {0} else 'a rejected value is still formatted/sent')
     rts = ret_terms(T, err)
-    exp = ('adt', 'core::result::Result', 'Err', (('0', field_of(('payload', ('field', ('param', 1), 'repr'), 'Error'), '0', 0)),))
+    exp = ('adt', 'core::result::Result', 'Err', (('0', field_of(('payload', ('field', ('param', 1), names(cad).mb_repr), names(cad).v_error), '0', 0)),))
     rep.ob(rid, 'try_send/error-state-returns-that-error', rts == {exp}, b.where(), 'Error(err) => Err(err)' if rts == {exp} else 'returns %s' % [fmt(x) for x in rts])
     if not ok:
         return
@@ -72,7 +72,7 @@ def rule_try_send(fm, rep, rid='R1'):
     okm = term_callee_is(metric, '<T as core::convert::From>::from') and term_callee_is(metric[2][0], strip_generics(fm.format.path))
     rep.ob(rid, 'try_send/sends-the-formatted-line', okm, b.where(sb), 'send_metric(&T::from(format()))' if okm else 'send_metric receives %s' % fmt(ct[2][1])[:120])
     client = peel(ct[2][0])
-    okc = any(y[0] == 'payload' and y[2] == 'Success' for y in walk(client))
+    okc = any(y[0] == 'payload' and y[2] == names(cad).v_success for y in walk(client))
     rep.ob(rid, 'try_send/uses-the-builders-client', okc, b.where(sb), 'sent through the client stored in the builder')
     rc = result_cases(T, sb)
     r_ok, r_err = rc['ok'], rc['err']
@@ -155,7 +155,7 @@ def rule_error_type(fm, rep, rid='R3'):
         ok = False
         if len(rts) == 1:
             r = list(rts)[0]
-            rp = dict(r[3]).get('repr') if r[0] == 'adt' else None
+            rp = dict(r[3]).get(names(cad).me_repr) if r[0] == 'adt' else None
             ok = rp is not None and rp[0] == 'adt' and dict(rp[3]).get('0') == ('param', 1)
             self_variant = rp[2] if ok else None
         rep.ob(rid, 'from-io-error-keeps-the-error', ok, b.where(), 'MetricError::from(io) stores the io::Error itself')
@@ -229,7 +229,7 @@ def rule_quiet_send(fm, rep, rid='R4'):
     tss = [bi for bi, t in ib.calls() if t.get('resolved') == fm.try_send.path and not ib.blocks[bi]['cleanup']]
     rep.sites(len(hs) + len(tss))
     bad = []
-    stored_err = field_of(('payload', ('field', ('param', 1), 'repr'), 'Error'), '0', 0)
+    stored_err = field_of(('payload', ('field', ('param', 1), names(cad).mb_repr), names(cad).v_error), '0', 0)
     if len(tss) > 1:
         bad.append('try_send is called from %d sites' % len(tss))
     if tss:
@@ -262,7 +262,7 @@ def rule_quiet_send(fm, rep, rid='R4'):
                 continue
             if not after_ts and arg == stored_err:
                 gs = guards_of(T, h) or []
-                if any(norm(dt)[0] == 'discr' and ('variant', 'Error') in labels for dt, labels, _ in gs):
+                if any(norm(dt)[0] == 'discr' and ('variant', names(cad).v_error) in labels for dt, labels, _ in gs):
                     continue
                 bad.append('the stored error is reported without the builder being in the rejected state')
                 continue
@@ -288,7 +288,7 @@ def rule_quiet_send(fm, rep, rid='R4'):
 def rule_rejection(fm, rep, rid='R5'):
     cad = fm.cad
     n = 0
-    fe = cad.method(MB, 'from_error')
+    fe = [names(cad).mb_from_error] if names(cad).mb_from_error is not None else []
     for tr, meth, plain, kind, mty, vtr, b in tagged_bodies(cad):
         if b is None:
             rep.anchor_lost(rid, 'impl %s for StatsdClient' % tr.rsplit('::', 1)[-1])
@@ -306,7 +306,7 @@ def rule_rejection(fm, rep, rid='R5'):
         ok = False
         if len(rts) == 1:
             r = list(rts)[0]
-            ok = term_callee_is(r, 'cadence::builder::MetricBuilder::from_error') and r[2][0] == field_of(('payload', ct, 'Err'), '0', 0) and peel(r[2][1]) == ('param', 1)
+            ok = bool(fe) and term_callee_is(r, strip_generics(fe[0].path)) and r[2][0] == field_of(('payload', ct, 'Err'), '0', 0) and peel(r[2][1]) == ('param', 1)
         rep.ob(rid, '%s/rejected-value-becomes-error-builder' % meth, ok, b.where(), 'Err(e) => MetricBuilder::from_error(e, self)' if ok else 'on a rejected value returns %s' % [fmt(x)[:100] for x in rts])
         okv = ct[2][0] == ('param', 3)
         rep.ob(rid, '%s/converts-the-argument' % meth, okv, b.where(tv[0]), 'try_to_value(value argument)')
@@ -315,9 +315,9 @@ def rule_rejection(fm, rep, rid='R5'):
         rts = ret_terms(Terms(inl(cad, fe[0])), [0])
         ok = False
         if len(rts) == 1:
-            r = dict(list(rts)[0][3]).get('repr') if list(rts)[0][0] == 'adt' else None
+            r = dict(list(rts)[0][3]).get(names(cad).mb_repr) if list(rts)[0][0] == 'adt' else None
             r = norm(r) if r is not None else None
-            ok = r is not None and r[0] == 'adt' and r[2] == 'Error' and dict(r[3])['0'] == ('param', 1) and peel(dict(r[3])['1']) == ('param', 2)
+            ok = r is not None and r[0] == 'adt' and r[2] == names(cad).v_error and dict(r[3])['0'] == ('param', 1) and peel(dict(r[3])['1']) == ('param', 2)
         rep.ob(rid, 'from_error-stores-error-state', ok, fe[0].where(), 'from_error(e, c) = builder in state Error(e, c)')
     else:
         rep.anchor_lost(rid, 'MetricBuilder::from_error')
@@ -418,11 +418,12 @@ def rule_decoration(fm, rep, rid='R1', kinds=True):
         r = list(rts)[0]
         wrappers = []
         x = r
-        while x[0] == 'call' and isinstance(x[1], str) and x[1].startswith('cadence::builder::MetricBuilder::') and not x[1].endswith('::from_fmt') and x[2]:
+        ffp = strip_generics(names(cad).mb_from_fmt.path) if names(cad).mb_from_fmt is not None else '?'
+        while x[0] == 'call' and isinstance(x[1], str) and x[1].startswith('cadence::builder::MetricBuilder::') and x[1] != ffp and x[2]:
             wrappers.append((x[1], x[2][1:]))
             x = x[2][0]
         rep.sites()
-        base_ok = term_callee_is(x, 'cadence::builder::MetricBuilder::from_fmt') and peel(x[2][1]) == ('param', 1)
+        base_ok = x[0] == 'call' and x[1] == ffp and peel(x[2][1]) == ('param', 1)
         tags_w = [w for w in wrappers if any(mentions_client_field(cad, a, 'tags') for a in w[1])]
         cid_w = [w for w in wrappers if any(mentions_client_field(cad, a, 'container_id') for a in w[1])]
         other = [w for w in wrappers if w not in tags_w and w not in cid_w]
@@ -500,7 +501,7 @@ def rule_tag_plumbing(fm, rep, rid='R2'):
                                        'with_container_id': (client_field(cad, 'container_id', SCB), None),
                                        'with_error_handler': (client_field(cad, 'errors', SCB), None)}, rid=rid)
     # from_builder moves everything unchanged
-    b = one(rep, rid, 'StatsdClient::from_builder', cad.method(SC, 'from_builder'))
+    b = one(rep, rid, 'StatsdClient::from_builder', [names(cad).sc_from_builder] if names(cad).sc_from_builder is not None else [])
     if b is not None:
         rep.analysed(b)
         rts = ret_terms(Terms(inl(cad, b)), [0])
@@ -516,7 +517,7 @@ def rule_tag_plumbing(fm, rep, rid='R2'):
             ok = not badf
             msg = 'fields not moved unchanged from the builder: %s' % [(n, fmt(get_path(list(rts)[0], tuple(n.split('.'))))[:80]) for n in badf]
         rep.ob(rid, 'from_builder-moves-config-unchanged', ok, b.where(), 'prefix, sink, errors, tags, container_id are moved as configured' if ok else msg)
-    nb = one(rep, 'R5', 'StatsdClientBuilder::new', cad.method(SCB, 'new'))
+    nb = one(rep, 'R5', 'StatsdClientBuilder::new', [names(cad).scb_new] if names(cad).scb_new is not None else [])
     if nb is not None:
         rts = ret_terms(Terms(nb), [0])
         ok = False
@@ -605,7 +606,7 @@ def rule_tag_plumbing(fm, rep, rid='R2'):
             if ok:
                 g1 = guards_of(T, kv[0]) or []
                 ok = any(norm(dt)[0] == 'discr' and ('variant', 'Some') in labels for dt, labels, _ in g1) and \
-                    any(norm(dt)[0] == 'discr' and ('variant', 'Success') in labels for dt, labels, _ in g1)
+                    any(norm(dt)[0] == 'discr' and ('variant', names(cad).v_success) in labels for dt, labels, _ in g1)
                 why = 'key:value application is not selected by the key being Some (on the Success state)'
         rep.ob(rid, 'default-tags-applied-each-once-in-order', ok, wb.where(), 'for item in tags (forward): Some(k) -> key:value tag, None -> bare tag' if ok else
                '%s does not apply every default tag once, in order, by its key: %s' % (cp.rsplit('::', 1)[-1], why))
@@ -835,7 +836,7 @@ def rule_prefix(fm, rep, rid='R6'):
     """The prefix stored by the builder is "" for an empty argument, otherwise the argument without trailing dots plus
     one dot; analysed on StatsdClientBuilder::new with private helpers inlined (wherever the normalisation lives)."""
     cad = fm.cad
-    nb = one(rep, rid, 'StatsdClientBuilder::new', cad.method(SCB, 'new'))
+    nb = one(rep, rid, 'StatsdClientBuilder::new', [names(cad).scb_new] if names(cad).scb_new is not None else [])
     if nb is None:
         return
     rep.analysed(nb)
@@ -918,7 +919,7 @@ def rule_nonempty(fm, rep, rid='R7'):
                 if v[0] == 'adt' and v[1] == MV and v[2].startswith('Packed'):
                     srcs.append('%s for %s' % (b.impl_trait.rsplit('::', 1)[-1], b.impl_self.replace('alloc::vec::', '').replace('core::time::', '')))
     rep.floor(rid, 'conversions producing packed values', len(srcs), 7)
-    ff = cad.method(MB, 'from_fmt')
+    ff = [names(cad).mb_from_fmt] if names(cad).mb_from_fmt is not None else []
     b = one(rep, rid, 'MetricBuilder::from_fmt', ff)
     if b is None:
         return
@@ -929,11 +930,11 @@ def rule_nonempty(fm, rep, rid='R7'):
     succ_blocks = []
     for bi, blk in enumerate(ib.blocks):
         for si, s in enumerate(blk['stmts']):
-            if s['k'] == 'assign' and s['rv']['k'] == 'agg' and s['rv'].get('variant') == 'Success' and not blk['cleanup']:
+            if s['k'] == 'assign' and s['rv']['k'] == 'agg' and s['rv'].get('variant') == names(cad).v_success and s['rv'].get('path') == names(cad).mb_enum and not blk['cleanup']:
                 succ_blocks.append(bi)
     # anywhere else constructing Success?
     elsewhere = [x for x in cad.all_bodies if x.path != b.path for blk in x.blocks for s in blk['stmts']
-                 if s['k'] == 'assign' and s['rv']['k'] == 'agg' and s['rv'].get('variant') == 'Success' and s['rv'].get('path', '').endswith('BuilderRepr')]
+                 if s['k'] == 'assign' and s['rv']['k'] == 'agg' and s['rv'].get('variant') == names(cad).v_success and s['rv'].get('path') == names(cad).mb_enum]
     rep.ob(rid, 'success-state-built-in-one-place', len(succ_blocks) == 1 and not elsewhere, b.where(), 'only from_fmt creates the sendable state')
     guarded = False
     why = 'no emptiness guard dominates the construction of the sendable builder state'
@@ -967,7 +968,7 @@ def rule_nonempty(fm, rep, rid='R7'):
     # the guard's other edge is an error
     if guarded:
         rts = ret_terms(T, [0])
-        errs = [r for r in rts if r[0] == 'adt' and any(y[0] == 'adt' and y[2] == 'Error' for y in walk(r))]
+        errs = [r for r in rts if r[0] == 'adt' and any(y[0] == 'adt' and y[1] == names(cad).mb_enum and y[2] == names(cad).v_error for y in walk(r))]
         if not errs:
             guarded = False
             why = 'the empty case does not become the Error state'
@@ -980,7 +981,8 @@ def rule_nonempty(fm, rep, rid='R7'):
 
 def _is_count_of_val(t, fm, body, T):
     t = norm(t)
-    if t[0] == 'call' and isinstance(t[1], str) and t[1].endswith('MetricValue::count'):
+    cnt = names(fm.cad).mv_count
+    if t[0] == 'call' and isinstance(t[1], str) and cnt is not None and t[1] == strip_generics(cnt.path):
         return True
     # inlined count(): phi of len(payload Packed*) | 1
     parts = flatten_phi(t)
@@ -991,7 +993,7 @@ def _is_count_of_val(t, fm, body, T):
 
 def _count_is_len(fm):
     cad = fm.cad
-    cb = cad.method(MV, 'count')
+    cb = [role_names(cad).mv_count] if role_names(cad).mv_count is not None else []
     if len(cb) != 1:
         return True, ''     # no helper: guard was on is_empty/len directly
     b = cb[0]
